@@ -66,6 +66,12 @@ fn gen_site(rng: &mut Rng, ctx_scope: char, n: &mut u32) -> Site {
     match rng.below(14) {
         0..=4 => {
             // gate call
+            // a block-local classical variable that shadows a global gate: calling it is calling a non-gate
+            if ctx_scope == 'L' && rng.below(10) == 0 {
+                let (g, _, _) = STD[rng.below(STD.len() as u64) as usize];
+                let (t, c) = operand(rng, 0);
+                return Site { text: format!("int {g} = 1; {g} {t};"), desc: format!("gc c0 0 {c}") };
+            }
             let (name, callee) = match rng.below(12) {
                 0 => ("c".to_string(), "c0".to_string()),
                 1 => ("nosuch".to_string(), "u".to_string()),
